@@ -107,7 +107,26 @@ impl Arena {
             unsafe { slice::from_raw_parts_mut(self.base.add(to).as_ptr(), len).fill(0xDD) };
         }
 
+        #[cfg(feature = "verif")]
+        {
+            crate::verif::bump(crate::verif::Counter::ArenaReset);
+            let old = self.offset.get();
+            if old > to {
+                crate::verif::poison(unsafe { self.base.add(to).as_ptr() }, old - to);
+                if crate::verif::quarantine() {
+                    return;
+                }
+            }
+        }
+
         self.offset.replace(to);
+    }
+
+    /// Verification accessor: `(base address, capacity, commit, offset)`.
+    #[cfg(feature = "verif")]
+    #[must_use]
+    pub fn verif_state(&self) -> (usize, usize, usize, usize) {
+        (self.base.as_ptr() as usize, self.capacity, self.commit.get(), self.offset.get())
     }
 
     /// Releases committed physical pages above the current offset back to the OS.
@@ -122,6 +141,8 @@ impl Arena {
                 sys::virtual_memory::decommit(self.base.add(keep), commit - keep);
             }
             self.commit.set(keep);
+            #[cfg(feature = "verif")]
+            crate::verif::bump(crate::verif::Counter::ArenaDecommit);
         }
     }
 
@@ -148,6 +169,8 @@ impl Arena {
         }
 
         self.offset.replace(end);
+        #[cfg(feature = "verif")]
+        crate::verif::unpoison(unsafe { self.base.add(beg).as_ptr() }, bytes);
         Ok(unsafe { NonNull::slice_from_raw_parts(self.base.add(beg), bytes) })
     }
 
@@ -164,7 +187,29 @@ impl Arena {
                     .is_err()
             }
         {
+            #[cfg(feature = "verif")]
+            crate::verif::bump(crate::verif::Counter::ArenaAllocFail);
             return Err(AllocError);
+        }
+        #[cfg(feature = "verif")]
+        {
+            if crate::verif::commit_should_fail() {
+                // Injected commit failure: hand the pages back and fail like a real one.
+                unsafe {
+                    sys::virtual_memory::decommit(
+                        self.base.add(commit_old),
+                        commit_new - commit_old,
+                    );
+                }
+                crate::verif::bump(crate::verif::Counter::ArenaAllocFail);
+                return Err(AllocError);
+            }
+            crate::verif::bump(crate::verif::Counter::ArenaCommit);
+            // Freshly committed pages are not handed out yet.
+            crate::verif::poison(
+                unsafe { self.base.add(commit_old).as_ptr() },
+                commit_new - commit_old,
+            );
         }
 
         if cfg!(debug_assertions) {
@@ -175,6 +220,8 @@ impl Arena {
 
         self.commit.replace(commit_new);
         self.offset.replace(end);
+        #[cfg(feature = "verif")]
+        crate::verif::unpoison(unsafe { self.base.add(beg).as_ptr() }, end - beg);
         Ok(unsafe { NonNull::slice_from_raw_parts(self.base.add(beg), end - beg) })
     }
 
@@ -210,6 +257,8 @@ impl Arena {
 impl Drop for Arena {
     fn drop(&mut self) {
         if !self.is_empty() {
+            #[cfg(feature = "verif")]
+            crate::verif::unpoison(self.base.as_ptr(), self.commit.get());
             unsafe { sys::virtual_memory::release(self.base, self.capacity) };
         }
     }
@@ -250,12 +299,16 @@ unsafe impl Allocator for Arena {
         // Growing the given area is possible if it is at the end of the arena.
         if unsafe { ptr.add(old_layout.size()) == self.base.add(self.offset.get()) } {
             new_ptr = ptr;
+            #[cfg(feature = "verif")]
+            crate::verif::bump(crate::verif::Counter::ArenaGrowInPlace);
             let delta = new_layout.size() - old_layout.size();
             // Assuming that the given ptr/length area is at the end of the arena,
             // we can just push more memory to the end of the arena to grow it.
             self.alloc_raw(delta, 1)?;
         } else {
             cold_path();
+            #[cfg(feature = "verif")]
+            crate::verif::bump(crate::verif::Counter::ArenaGrowCopy);
 
             new_ptr = self.allocate(new_layout)?.cast();
 
@@ -305,6 +358,11 @@ unsafe impl Allocator for Arena {
         // Shrinking the given area is possible if it is at the end of the arena.
         if unsafe { ptr.add(len) == self.base.add(self.offset.get()) } {
             self.offset.set(self.offset.get() - len + new_layout.size());
+            #[cfg(feature = "verif")]
+            crate::verif::poison(
+                unsafe { ptr.add(new_layout.size()).as_ptr() },
+                len - new_layout.size(),
+            );
             len = new_layout.size();
         } else {
             debug_assert!(
